@@ -955,7 +955,11 @@ impl Printable for ExprBase {
 				p!(out, str("]"));
 			}
 			Self::ExprImport(v) => {
-				p!(out, {v.import_kind()} sp cl(k(&v.text())) {v.text()});
+				if v.text().is_some() {
+					p!(out, {v.import_kind()} sp cl(k(&v.text())) {v.text()});
+				} else {
+					p!(out, {v.import_kind()} sp cl(n(&v.expr())) {v.expr()});
+				}
 			}
 			Self::ExprVar(n) => p!(out, { n.name() }),
 			// Self::ExprLocal(l) => {
